@@ -14,7 +14,7 @@ PROPERTY = "C02"
 LEVEL = "fault_enumeration"
 NEED_EXT = True
 REQUIRED = ["frame.fit", "frame.methods", "fault.invalid_data", "fault.inner_estimator", "fault.call_site",
-            "atomicity.refit"]
+            "atomicity.refit", "upstream.monitored_calls"]
 RULE = ("for each of the fittable registered classes and each configuration: one clean fit + every output method "
         "under the frame monitor; 14 invalid-data classes; probe estimators failing on their k-th fit for every k "
         "seen in the clean run (serial and n_jobs=4); every fallible call site of fit from the census at its first and "
@@ -27,6 +27,7 @@ ASSUMPTIONS = ["copy_x=False / copy_X=False configurations are documented to ove
                "the reference for 'a later successful fit' is a freshly built object of the same configuration fitted "
                "on the same data under the same NumPy seed"]
 CASE_TIMEOUT = 150
+SHARD_TIMEOUT = {"quick": 300, "thorough": 1800}
 
 FITTABLE = ["QuantileLinearRegression", "PiecewiseRegressor", "PiecewiseClassifier", "PiecewiseTreeRegressor",
             "DecisionTreeLogisticRegression", "KMeansL1L2", "ConstraintKMeans", "ClassifierAfterKMeans",
@@ -47,6 +48,34 @@ def cases(tier, seed):
                  "TransformedTargetRegressor2", "TransformedTargetClassifier2", "SkBaseTransformLearner",
                  "SkBaseTransformStacking", "DecisionTreeLogisticRegression", "PredictableTSNE"):
         out.append({"gen": "inner", "id": "inner-%s" % name, "cls": name, "sub": seed, "tier": tier})
+    # upstream's own tests as a workload: call histories this harness did not write, under class-level monitors
+    files = UPSTREAM_QUICK if tier == "quick" else None
+    for f in upstream_files(files):
+        out.append({"gen": "upstream", "id": "upstream-%s" % f.replace("/", "-"), "file": f})
+    return out
+
+
+UPSTREAM_QUICK = ["ut_mlmodel/test_sklearn_kmeans_constraint.py", "ut_mlmodel/test_piecewise_regressor.py",
+                  "ut_mlmodel/test_piecewise_classifier.py", "ut_mlmodel/test_quantile_regression.py",
+                  "ut_mlmodel/test_interval_regressor.py", "ut_mlmodel/test_target_predictors.py",
+                  "ut_mlmodel/test_kmeans_l1.py", "ut_mlmodel/test_extended_features.py",
+                  "ut_mlmodel/test_transfer_transformer.py", "ut_mlmodel/test_classification_kmeans.py",
+                  "ut_mlmodel/test_decision_tree_logistic_regression.py", "ut_sklapi/test_sklearn_stacking.py"]
+
+
+def upstream_files(only=None):
+    import glob
+    import os
+    from vrt import build_ext
+    root = os.path.join(build_ext.repo_root(), "_unittests")
+    out = []
+    for sub in ("ut_mlmodel", "ut_mltree", "ut_timeseries", "ut_sklapi"):
+        for f in sorted(glob.glob(os.path.join(root, sub, "test_*.py"))):
+            rel = os.path.relpath(f, root)
+            if "LONG" in rel or "torch" in rel:
+                continue
+            if only is None or rel in only:
+                out.append(rel)
     return out
 
 
@@ -442,8 +471,79 @@ def run_inner(case, ctx):
     ctx.cls("class=" + spec.name)
 
 
+def run_upstream(case, ctx):
+    """Run one upstream test file in-process with the frame monitor installed on every registered class.
+    The tests' own verdicts are ignored; only the monitor's observations count."""
+    import io
+    import os
+    import contextlib
+    import pytest
+    from vrt import kernel, registry, build_ext
+    classes = []
+    for spec in registry.specs():
+        cls = type(spec.make(0))
+        for c in cls.__mro__:
+            if c.__module__.startswith("mlinsights.") and c not in classes:
+                classes.append(c)
+    methods = ["fit", "predict", "predict_proba", "decision_function", "transform", "score", "predict_all",
+               "predict_sorted", "transform_bins", "predict_leaves", "decision_path"]
+    seen = {"calls": 0}
+
+    def arrays(args, kwargs):
+        import pandas
+        out = []
+        for a in list(args[:3]) + [kwargs.get(k) for k in ("X", "y", "sample_weight")]:
+            if isinstance(a, (numpy.ndarray, pandas.DataFrame)):
+                out.append(a)
+        return out
+
+    def before(obj, name, args, kwargs):
+        arrs = arrays(args, kwargs)
+        return (params_fp(obj), [data_fp({"a": a}) for a in arrs], arrs)
+
+    def after(obj, name, args, kwargs, token, res):
+        p0, d0, arrs = token
+        seen["calls"] += 1
+        ctx.hit("upstream.monitored_calls")
+        failed = isinstance(res, BaseException)
+        cfg = {"class": type(obj).__name__, "method": name, "test_file": case["file"],
+               "raised": type(res).__name__ if failed else None}
+        K = "C02/%s/" % type(obj).__name__
+        d = diff_fp(p0, params_fp(obj))
+        if d:
+            ctx.violation(K + ("params-changed-after-failed-%s/upstream" % name if failed
+                               else "%s/params-changed" % name),
+                          "upstream test workload: %s %s changed get_params: %r" % (
+                              name, "raised and" if failed else "", d[:4]), cfg=cfg)
+        if not copy_flag_off(obj):
+            for a, fp0 in zip(arrs, d0):
+                if data_fp({"a": a}) != fp0:
+                    ctx.violation(K + "%s/input-modified" % name, "upstream test workload: %s wrote into its "
+                                  "argument" % name, cfg=cfg)
+                    break
+        if name == "fit" and not failed and res is not obj:
+            ctx.violation(K + "fit/returns-not-self", "upstream test workload: fit returned %r" % type(res).__name__,
+                          cfg=cfg)
+
+    n = kernel.install(classes, methods, before, after)
+    path = os.path.join(build_ext.repo_root(), "_unittests", case["file"])
+    try:
+        buf = io.StringIO()
+        with contextlib.redirect_stdout(buf), contextlib.redirect_stderr(buf):
+            rc = pytest.main(["-q", "-p", "no:cacheprovider", "--no-header",
+                              "-W", "ignore", path])
+    finally:
+        kernel.uninstall()
+    ctx.extra["upstream"] = {case["file"]: {"pytest_rc": int(rc), "monitored_calls": seen["calls"],
+                                            "wrapped_methods": n}}
+    if seen["calls"]:
+        ctx.nontriv("upstream", case["file"])
+    ctx.cls("upstream-test-file")
+
+
 def run_case(case, ctx):
-    {"frame": run_frame, "invalid": run_invalid, "sites": run_sites, "inner": run_inner}[case["gen"]](case, ctx)
+    {"frame": run_frame, "invalid": run_invalid, "sites": run_sites, "inner": run_inner,
+     "upstream": run_upstream}[case["gen"]](case, ctx)
 
 
 def summarize(extras, counters):
@@ -452,7 +552,13 @@ def summarize(extras, counters):
         census.update(e.get("census", {}))
     nsites = sum(len(v) for c in census.values() for v in c.values())
     anchored = {k: census.get(k) for k in ("ConstraintKMeans", "PiecewiseTreeRegressor")}
-    return {"fault_site_census": {"classes": len(census), "sites_total": nsites, "anchored_fits": anchored}}
+    up = {}
+    for e in extras:
+        up.update(e.get("upstream", {}))
+    return {"fault_site_census": {"classes": len(census), "sites_total": nsites, "anchored_fits": anchored},
+            "upstream_tests_workload": {"files": len(up),
+                                        "monitored_calls": int(sum(v["monitored_calls"] for v in up.values())),
+                                        "per_file": up}}
 
 
 def evaluations(counters, ncases):
